@@ -86,9 +86,6 @@ def tasks(base_seed, tier):
     for name in sorted(progs.SPECIAL):
         for tr in tracers:
             for threaded in (False, True):
-                if name.startswith('recursion') or name == 'mutual_recursion':
-                    if tr != 'none':
-                        continue    # a Python-level tracer at the recursion limit is its own workload; keep it simple
                 out.append({'id': 'special:%s:%s:%d' % (name, tr, threaded), 'kind': 'special', 'name': name,
                             'tracer': tr, 'threaded': threaded, 'tier': tier})
     for i in range(n_prog):
@@ -148,6 +145,8 @@ def build_program_task(task):
     cfg = {'tracer': tracer, 'ref': True}
     if threaded and rc.random() < (0.6 if entry == 'import' else 0.2):
         cfg['sandbox_threaded'] = True      # sandbox-wide threaded mode: the nested import runs in a thread of its own
+    if rc.random() < 0.12:
+        cfg['full_traceback'] = True
     spec = {'files': files, 'config': cfg, 'ops': ops,
             'meta': {'entry': entry, 'threaded': threaded, 'tracer': tracer, 'seed': task['seed']}}
     return spec
@@ -314,6 +313,9 @@ def judge(spec, res):
     if special:
         names = SPECIAL_EXPECT.get(special)
         exp = {'any_of': names, 'line': SPECIAL_LINE.get(special), 'must_fail': special not in SPECIAL_NORMAL}
+        if 'recursion' in special and meta.get('tracer') != 'none':
+            # with a Python-level tracer the limit is usually hit inside the tracer's own frame, not on a student line
+            exp['line'] = None
     elif ref is not None:
         if fault and o['fired'] and not ref['fired']:
             phase = '/phase=record'
@@ -347,13 +349,17 @@ def judge(spec, res):
         if exp.get('any_of') and f['exception_name'] is not None and sx is None \
                 and f['exception_name'] not in exp['any_of']:
             viol('feedback-describes-other-class', 'feedback says %s, expected %s' % (f['exception_name'], exp['any_of']), phase)
-        if exp.get('line') is not None and exp.get('file', 'answer.py') == 'answer.py':
+        if exp.get('line') is not None and exp.get('file', 'answer.py') in ('answer.py', 'helper.py'):
+            # (a line of the imported student file is a student line as well)
+            in_file = exp.get('file', 'answer.py')
             if f['line'] != exp['line']:
-                viol('wrong-line', 'failure raised on student line %s, feedback located at %r' % (exp['line'], f['line']), phase)
+                viol('wrong-line', 'failure raised on student line %s%s, feedback located at %r' % (
+                    exp['line'], '' if in_file == 'answer.py' else ' of ' + in_file, f['line']),
+                    phase + ('' if in_file == 'answer.py' else '/in-imported-file'))
             else:
                 # the rendered traceback ends on the same student line
                 import re as _re
-                shown = [int(n) for n in _re.findall(r'Line (\d+) of file answer\.py', f.get('traceback_message') or '')]
+                shown = [int(n) for n in _re.findall(r'Line (\d+) of file %s' % _re.escape(in_file), f.get('traceback_message') or '')]
                 if shown and shown[-1] != exp['line']:
                     viol('traceback-text-ends-elsewhere', 'failure raised on student line %s, traceback text ends at line %s' % (
                         exp['line'], shown[-1]), phase)
